@@ -1205,9 +1205,10 @@ def _masked_conv(v):
     return v
 
 
-def _typed(v, dt):
-    """a concrete integer result of a reduction over float / complex data (empty range: the neutral element) in the result's class"""
-    if isinstance(v, int) and not isinstance(v, bool) and dt in ("float", "complex"):
+def _typed(v, dt, shape=()):
+    """a concrete integer result of a reduction over float / complex data of CONCRETE shape (empty range: the neutral element) in the
+    result's class; results over symbolic axes are left exactly as they are (term shapes matter to the solvers)"""
+    if isinstance(v, int) and not isinstance(v, bool) and dt in ("float", "complex") and all(dim_conc(d) for d in shape):
         return Fraction(v) if dt == "float" else Cx(Fraction(v), Fraction(0))
     return v
 
@@ -1223,10 +1224,10 @@ def reduce_sum(a, axis=None):
                 if k == len(rest):
                     return _masked_conv(src((t,) + tuple(prefix)))
                 return Sum(0, rest[k], lambda u: total(t, prefix + [u], k + 1))
-            return _typed(Sum(0, a.n, lambda t: ite(mask(t), lambda: total(t, [], 0), 0)), dt)
+            return _typed(Sum(0, a.n, lambda t: ite(mask(t), lambda: total(t, [], 0), 0)), dt, (a.n,) + rest)
         if axis == 0:
             def fn0(idx):
-                return _typed(Sum(0, a.n, lambda t: ite(mask(t), lambda: _masked_conv(src((t,) + tuple(idx))), 0)), dt)
+                return _typed(Sum(0, a.n, lambda t: ite(mask(t), lambda: _masked_conv(src((t,) + tuple(idx))), 0)), dt, (a.n,) + rest)
             return fn0(()) if rest == () else new_arr(rest, fn0, dt)
         k = axis - 1
         new_rest = rest[:k] + rest[k + 1:]
@@ -1247,7 +1248,7 @@ def reduce_sum(a, axis=None):
             if k == len(shape):
                 return conv(r(tuple(prefix)))
             return _axis_len_sum(shape[k], lambda t: total(prefix + [t], k + 1))
-        return _typed(total([], 0), dt)
+        return _typed(total([], 0), dt, shape)
     if isinstance(axis, tuple):
         out = a
         for ax in sorted([x % len(shape) for x in axis], reverse=True):
@@ -1258,7 +1259,7 @@ def reduce_sum(a, axis=None):
     n = shape[axis]
 
     def fn(idx):
-        return _typed(_axis_len_sum(n, lambda t: conv(r(tuple(idx[:axis]) + (t,) + tuple(idx[axis:])))), dt)
+        return _typed(_axis_len_sum(n, lambda t: conv(r(tuple(idx[:axis]) + (t,) + tuple(idx[axis:])))), dt, shape)
     if out_shape == ():
         return fn(())
     return new_arr(out_shape, fn, dt)
@@ -1276,7 +1277,7 @@ def reduce_prod(a, axis=None):
         acc = 1
         for idx in itertools.product(*[range(d) for d in shape]):
             acc = sv.mul(acc, r(idx))
-        return _typed(acc, a.dtype)
+        return _typed(acc, a.dtype, shape)
     axis = int(axis) % len(shape)
     if not dim_conc(shape[axis]):
         raise EngineError("product over symbolic axis")
